@@ -546,6 +546,19 @@ class Shadow:
             accepted = True
         except Exception:
             accepted = False
+        # the same through a container (the root mapping): mappings and lists change their data first and tell the connection
+        # afterwards, so the refusal comes when the change is already made - it must not stay visible
+        junk = 'refused-%d' % self.uid
+        root = self.conn._cache.get(b'\0' * 8) if how == 'closed' else self.conn.root()
+        if root is not None:
+            if how != 'closed':
+                root._p_activate()
+            try:
+                root[junk] = 1
+                accepted = True
+            except Exception:
+                pass
+            self.count('refused_container_writes')
         if how != 'closed':
             # an explicit add that cannot be registered either: the object must stay a plain Python object
             from zv.objs import Cell
@@ -571,6 +584,8 @@ class Shadow:
         if accepted:
             # (a storage-less write that went through would have to be an ordinary modification; none of the bundled paths allows it)
             raise Diverged('write-accepted-although-the-connection-could-not-join', {'how': how, 'object': k})
+        if junk in self.conn.root():
+            raise Diverged('refused-write-to-a-container-stays-visible-as-if-committed', {'how': how})
         self.trace.append('refused-write(%s)' % how)
         self.count('refused_writes')
         self.compare('after-refused-write')
